@@ -186,7 +186,9 @@ where
     }
     fn deserialize(buf: &mut &[u8]) -> Result<Self, String> {
         let len = usize::deserialize(buf)?;
-        let mut res = Vec::with_capacity(len);
+        // The announced length is not trusted for the allocation: every element takes at least
+        // one byte of the remaining buffer.
+        let mut res = Vec::with_capacity(len.min(buf.len()));
         for _ in 0..len {
             res.push(T::deserialize(buf)?);
         }
